@@ -152,6 +152,13 @@ impl Run {
                 None => fresh.push(v),
             }
         }
+        if let Ok(path) = std::env::var("MC_DUMP") {
+            let mut txt = String::new();
+            for v in &self.violations {
+                txt.push_str(&format!("{}\t{}\n", v.key.clone().unwrap_or_else(|| "-".into()), v.summary.replace('\n', " ⏎ ")));
+            }
+            let _ = std::fs::write(path, txt);
+        }
         // replay files for fresh violations (grouped by key, at most 5 per key, 40 in total)
         let dir = verif_root().join("replays").join(&self.property);
         let _ = std::fs::create_dir_all(&dir);
